@@ -4,7 +4,8 @@ E2: enumerate ALL pairs of small tables (every key vector of length 0..3 over a 
 alphabet on either side, so: header-only sides, duplicate keys on both sides, None and mixed-type keys,
 disjoint / overlapping / identical key sets) x every operator of the sort-merge family x key-argument forms
 (key, lkey/rkey, natural, compound, compound with swapped right columns) x ragged row shapes x prefixes x
-missing x presorted x a right table that has key fields only; crossjoin over all 1-3-tuples of ragged tables.
+missing x presorted (also on ragged rows x missing) x a right table that has key fields only x field-NAMING schemes
+(key / non-key names that are substrings, prefixes, superstrings or str()-equal); crossjoin over all 1-3-tuples of ragged tables.
 Oracle: nested-loop relational reference (mc/refs/joins.py): header, type-faithful multiset of rows, and
 ascending key order of the output under the independent C04 reference order.
 """
@@ -26,7 +27,13 @@ RULE = ('every pair (left, right) of tables whose key vectors range over ALL tup
         'compound key (2 columns over {None,i1}, by argument and natural) / compound lkey,rkey with swapped '
         'right columns / ragged rows (full, short before the key, short after the key, long, empty; not for '
         'antijoin, which does not square up) x missing / lprefix,rprefix / missing=text / presorted=True on '
-        'inputs already in reference key order / right table with key fields only; crossjoin: all 1-,2-,3-tuples '
+        'inputs already in reference key order / presorted=True x ragged rows (full, short after the key, long: the '
+        'key cell exists, key sequence in reference order) x missing None/text / right table with key fields only / '
+        'field NAMING: ~1200 (thorough ~2500) header schemes in which key and non-key field names are substrings, '
+        'prefixes or superstrings of one another (key kid with fields k, id, i, ki, kidx), equal after str() '
+        '(int-valued header fields selected by name), a right non-key field named like the left key, for key=, '
+        'lkey/rkey, natural and compound keys, key column in every position, cells tagged by row and column, '
+        'thorough also with text/int prefixes; crossjoin: all 1-,2-,3-tuples '
         'of ragged 2-column tables x prefix x missing.  states = (variant, arguments, operator, table pair) '
         'points; every state is one evaluation of the real operator compared with the reference (header, '
         'type-faithful multiset of rows, non-decreasing output keys).  A case is non-trivial when both sides '
@@ -57,7 +64,7 @@ def build_space(tier, seed):
             ops = [o for o in ops if o in J.TAKES_MISSING]
         if name == 'prefix':
             ops = [o for o in ops if o in J.TAKES_PREFIX]
-        if name == 'ragged':
+        if name in ('ragged', 'ragged-presorted'):
             ops = [o for o in ops if o in J.SQUARES_UP]
         v['ops'] = ops
     return V
@@ -96,6 +103,8 @@ def setup(tier, seed):
     _S.clear()
     _S['space'] = build_space(tier, seed)
     _S['cross'] = cross_tuples(tier)
+    _S['names'] = J.name_schemes(tier, seed)
+    _S['namedata'] = J.name_data(tier, seed)
 
 
 def bounds(tier, seed):
@@ -107,6 +116,10 @@ def bounds(tier, seed):
                    'cases': len(v['L']) * len(v['R']) * len(v['kw']) * len(v['ops'])}
     b['crossjoin'] = {'table_tuples': len(_S['cross']), 'argument_forms': len(CROSS_KW),
                       'cases': len(_S['cross']) * len(CROSS_KW)}
+    lv, rv = _S['namedata']
+    b['field-naming'] = {'schemes': len(_S['names']), 'left_key_vectors': len(lv), 'right_key_vectors': len(rv),
+                         'operators': len(J.MERGE_OPS),
+                         'cases': sum(len(sc['kw']) for sc in _S['names']) * len(lv) * len(rv) * len(J.MERGE_OPS)}
     b['key_alphabet'] = [repr(x) for x in (spaces.K6(seed) if tier == 'thorough' else spaces.K4(seed))]
     return b
 
@@ -121,6 +134,10 @@ def items(tier, seed):
         size = max(1, TARGET // max(1, per_left))
         for lo in range(0, len(v['L']), size):
             out.append(('join', name, lo, min(len(v['L']), lo + size)))
+    lv, rv = _S['namedata']
+    size = max(1, TARGET // (len(lv) * len(rv) * len(J.MERGE_OPS) * len(_S['names'][0]['kw'])))
+    for lo in range(0, len(_S['names']), size):
+        out.append(('names', 'field-naming', lo, min(len(_S['names']), lo + size)))
     n = len(_S['cross'])
     size = 3000
     for lo in range(0, n, size):
@@ -195,6 +212,31 @@ def replay(case):
     return (r[1], r[2], r[0] + ': ' + r[3])
 
 
+def _do_pair(acc, name, left, right, kw, ops, allkw):
+    nt = J.nontrivial_pair(left, right, kw)
+    for op in ops:
+        kw2 = kw
+        drop = [k for k in kw if (k == 'missing' and op not in J.TAKES_MISSING) or
+                (k in ('lprefix', 'rprefix') and op not in J.TAKES_PREFIX)]
+        if drop:
+            kw2 = {k: x for k, x in kw.items() if k not in drop}
+            if kw2 in allkw:
+                continue          # same call as an argument form already enumerated
+        acc.evals += 1
+        acc.states += 1
+        acc.transitions += 1
+        acc.counters['op:' + op] += 1
+        if nt:
+            acc.nontrivial += 1
+            acc.counters['nontrivial:' + op] += 1
+        r = check_join(op, left, right, kw2)
+        acc.outcome((op, len(left), len(right), r is None))
+        if r is not None:
+            acc.violation('%s | %s' % (op, r[0]),
+                          {'kind': 'join', 'variant': name, 'op': op, 'left': left, 'right': right,
+                           'kwargs': kw2}, r[1], r[2], r[3])
+
+
 def run_item(item, acc):
     kind, name, lo, hi = item
     if kind == 'cross':
@@ -214,31 +256,27 @@ def run_item(item, acc):
                                   {'kind': 'cross', 'op': 'crossjoin', 'tables': list(ts), 'kwargs': kw},
                                   r[1], r[2], r[3])
         return
+    if kind == 'names':
+        lv, rv = _S['namedata']
+        for sc in _S['names'][lo:hi]:
+            for lvec in lv:
+                left = J.tagged_table(sc['lhdr'], sc['lk'], lvec, 'L')
+                for rvec in rv:
+                    right = J.tagged_table(sc['rhdr'], sc['rk'], rvec, 'R')
+                    for kw in sc['kw']:
+                        _do_pair(acc, 'names:' + sc['form'], left, right, kw, J.MERGE_OPS, sc['kw'])
+        if lo == 0:
+            sc = _S['names'][min(len(_S['names']) - 1, 40)]
+            left = J.tagged_table(sc['lhdr'], sc['lk'], lv[-1], 'L')
+            right = J.tagged_table(sc['rhdr'], sc['rk'], rv[-1], 'R')
+            acc.sample({'variant': 'field-naming', 'op': 'outerjoin', 'left': left, 'right': right,
+                        'kwargs': sc['kw'][0], 'reference': J.relational('outerjoin', left, right, **sc['kw'][0])[:2]}, 1)
+        return
     v = _S['space'][name]
     for left in v['L'][lo:hi]:
         for right in v['R']:
             for kw in v['kw']:
-                nt = J.nontrivial_pair(left, right, kw)
-                for op in v['ops']:
-                    if 'missing' in kw and op not in J.TAKES_MISSING:
-                        kw2 = {k: x for k, x in kw.items() if k != 'missing'}
-                        if kw2 in v['kw']:
-                            continue          # same call as an argument form already enumerated
-                    else:
-                        kw2 = kw
-                    acc.evals += 1
-                    acc.states += 1
-                    acc.transitions += 1
-                    acc.counters['op:' + op] += 1
-                    if nt:
-                        acc.nontrivial += 1
-                        acc.counters['nontrivial:' + op] += 1
-                    r = check_join(op, left, right, kw2)
-                    acc.outcome((op, len(left), len(right), r is None))
-                    if r is not None:
-                        acc.violation('%s | %s' % (op, r[0]),
-                                      {'kind': 'join', 'variant': name, 'op': op, 'left': left, 'right': right,
-                                       'kwargs': kw2}, r[1], r[2], r[3])
+                _do_pair(acc, name, left, right, kw, v['ops'], v['kw'])
     if lo == 0:
         left, right = v['L'][min(len(v['L']) - 1, 7)], v['R'][min(len(v['R']) - 1, 9)]
         sop = 'outerjoin' if 'outerjoin' in v['ops'] else v['ops'][0]
